@@ -31,6 +31,10 @@ INT_POOL = {
     "three_a": (("addi", "a", "b"), ("subi", "a", "b"), ("muli", "a", 1)),
     "three_b": (("addi", "a", "b"), ("subi", "a", "b"), ("muli", "b", 1)),
     "three_1": (("addi", "a", "b"), ("subi", "a", "b"), ("muli", 1, 0)),
+    # operations carrying flags (the merged element keeps one operation per kind, whatever its flags)
+    "mul_nsw": (("muli_nsw", "a", "b"),),
+    "add_nuw_mul": (("addi_nuw", "a", "b"), ("muli", 0, "b")),
+    "sub_mul_nsw": (("subi", "a", "b"), ("muli_nsw", 0, "a")),
     "xor_or": (("xori", "a", "b"), ("ori", 0, "b")),
     "sq_plus_b": (("muli", "a", "a"), ("addi", 0, "b")),
     "dbl_sub": (("addi", "a", "a"), ("subi", 0, "b")),
@@ -43,6 +47,8 @@ FLT_POOL = {
     "addf_mulf": (("addf", "a", "b"), ("mulf", "b", 0)),
     "threef": (("addf", "a", "b"), ("subf", "a", "b"), ("mulf", 0, 1)),
     "divf_r": (("divf", "b", "a"),),
+    "mulf_fast": (("mulf_fast", "a", "b"),),
+    "addf_fast_mulf": (("addf_fast", "a", "b"), ("mulf", 0, "a")),
 }
 
 
@@ -62,7 +68,13 @@ def make_generic(kernel, is_float):
         return b.args[0] if s == "a" else b.args[1] if s == "b" else res[s]
 
     for (nm, s1, s2) in kernel:
-        o = CL[nm](val(s1), val(s2))
+        if nm.endswith(("_nsw", "_nuw")):
+            fl = arith.IntegerOverflowFlag.NSW if nm.endswith("_nsw") else arith.IntegerOverflowFlag.NUW
+            o = CL[nm[:-4]](val(s1), val(s2), overflow=arith.IntegerOverflowAttr([fl]))
+        elif nm.endswith("_fast"):
+            o = CL[nm[:-5]](val(s1), val(s2), flags=arith.FastMathFlagsAttr("fast"))
+        else:
+            o = CL[nm](val(s1), val(s2))
         b.add_op(o)
         res.append(o.results[0])
     b.add_op(linalg.YieldOp(res[-1]))
